@@ -8,7 +8,10 @@ import forms
 import formspaths
 
 LEVEL = 'model_checking'
-RULE = ('The redo-log relation is part of the spec (spec/Ferrous.tla AofApply/AofStep): re-executing, with the reference '
+RULE = ('TLC checks the logging design transcribed from server.rs (spec/impl/ImplAof.tla: write set, SPOP and served blocking pops '
+        'by outcome, SELECT insertion, EXEC logged command by command) over every interleaving of 2 connections sending the write '
+        'catalogue: re-executing the file always gives the live dataset (Faithful); the transcribed write set is compared with '
+        'Server::is_write_command. The redo-log relation is part of the spec (spec/Ferrous.tla AofApply/AofStep): re-executing, with the reference '
         'semantics, the frames the server appended while executing a request must reproduce the live dataset (values; TTL '
         'presence) after EVERY request. Histories over the write catalogue of all value types through direct commands, '
         'MULTI/EXEC, several databases and blocked clients being served, and the forms catalogue (lib/forms.py) through direct '
@@ -264,7 +267,32 @@ class AofWrites(workloads.Pool):
         return self.z.next()
 
 
+def write_set_in_source():
+    """The command names of Server::is_write_command (src/network/server.rs)."""
+    import re
+    src = open('/repo/src/network/server.rs').read()
+    m = re.search(r'fn is_write_command\(.*?matches!\(command,(.*?)\)\s*\}', src, re.S)
+    return set(re.findall(r'"([A-Z]+)"', m.group(1))) if m else set()
+
+
+def write_set_in_model():
+    import re
+    import runner
+    txt = open(os.path.join(runner.VERIF, 'spec', 'impl', 'ImplAof.tla')).read()
+    m = re.search(r'WriteSet ==\s*\{(.*?)\}', txt, re.S)
+    return set(re.findall(r'"([A-Z]+)"', m.group(1)))
+
+
 def run(ctx):
+    # the logging design (spec/impl/ImplAof.tla): every interleaving of 2 connections over the write catalogue keeps the
+    # file a faithful redo log; the transcribed write set must be the one in the source
+    import runner
+    a, b = write_set_in_source(), write_set_in_model()
+    if a != b:
+        p = ctx.save_violation({'kind': 'write-set', 'only_in_source': sorted(a - b), 'only_in_model': sorted(b - a)})
+        ctx.violations.append(('the write set of Server::is_write_command differs from the one the model was checked with: '
+                               'only in source %s, only in model %s' % (sorted(a - b), sorted(b - a)), p))
+    ctx.model_check('ImplAof', 'MC_Aof_fixed' if ctx.quick else 'MC_Aof_fixed_full', workers=12, timeout=1500, subdir='impl')
     n = 3 if ctx.quick else 24
     for i in range(n):
         history(ctx, i, AofWrites, 250 if ctx.quick else 800, dbs=(i % 3 == 1), txn=(i % 3 == 2))
